@@ -21,6 +21,10 @@ TRUSTED = [
 ASSUMPTIONS = ["IFS consists of blanks, tabs and newlines only (or is unset / empty): the quantifier of the property",
                "bash is run with LC_ALL=C.UTF-8 (code-point collation, like brush's byte-wise sort)"]
 
+import re
+# an escaped dollar directly followed by a single-quoted string that ends in a backslash:  \$'..\'
+ESC_DOLLAR_Q = re.compile(r"\\\$'[^']*\\'")
+
 VALUES = ["", " ", "a", "a b", " a  b ", "*", "a*", "[ab]", "?", "a\nb", "\ta", "x y z", "~", "{a,b}", "'q'", "\\*",
           "b*  c?", "é", "-n", "a:b", "  ", "\n", "*  ", ".*"]
 DIRS = [
@@ -212,6 +216,14 @@ def classify(c, cr, ref):
     if ifs == "" and any(p[0] == "P" and p[1][0] in ("p", "d", "a") and
                          (p[1][1] if p[1][0] == "p" else p[1][2])[0] in ("*", "S") for p in flatp):
         return "KF-C05-star-empty-ifs"
+    if ESC_DOLLAR_Q.search(c.text):
+        return "KF-C05-escaped-dollar-quote"
+    # ${@:+w} ${a[@]:-w}: a list of two or more empty elements is not null in bash (they print as blanks)
+    for p in flatp:
+        if p[0] == "P" and p[1][0] in ("d", "a") and p[1][1] and p[1][2][0] in ("@", "R", "*", "S"):
+            el = param_elems(c, p[1][2])
+            if len(el) >= 2 and all(x == "" for x in el) and not (p[1][2][0] in ("*", "S") and ifs == ""):
+                return "KF-C05-list-null-test"
     if py_known_at_null(c):
         return "KF-C05-dq-at-null"          # = known_at_null of Expand/SpecProofs.v (cross-checked in run())
     for p in c.word:
@@ -228,8 +240,20 @@ def classify(c, cr, ref):
             if v is not None and any(ord(ch) > 127 for ch in v):
                 return "KF-C05-length-bytes"
     # dot-files: only the FIRST piece of the field is inspected for a leading '.'
+    def dotted(p):
+        if p[0] == "T":
+            return p[1].startswith(".")
+        if p[0] == "P":
+            e = p[1]
+            par = e[1] if e[0] in ("p", "l") else e[2]
+            el = param_elems(c, par)
+            if el is not None:
+                return any(x.startswith(".") for x in el)
+            v = scalar_val(c, par)
+            return bool(v) and v.startswith(".")
+        return False
     for k, p in enumerate(c.word):
-        if k > 0 and p[0] == "T" and p[1].startswith("."):
+        if k > 0 and dotted(p) and any(q[0] in ("Q", "D", "P", "X", "C") for q in c.word[:k]):
             return "KF-C05-dot-first-piece"
     # default / alternative words holding list expansions or quotes: nested field structure
     for (wtext, dq), (_q, _t) in subwords.items():
@@ -333,6 +357,14 @@ def evaluate(ctx, cases, bash_all=False, bash_sample=1500):
         if mr[0] == "UNSUPPORTED" or sr[0] == "UNSUPPORTED":
             stats["unsupported_by_glob_reference"] += 1
             continue
+        if ESC_DOLLAR_Q.search(c.text):
+            # the tokenizer (not the expander) takes the ' after an escaped dollar for the start of $'...':
+            # recorded finding; the command never reaches the expander, so there is nothing to compare
+            stats["escaped_dollar_quote"] = stats.get("escaped_dollar_quote", 0) + 1
+            if cr != sr:
+                specv.append({"input": describe(c), "why": "spec %r, code gave %r" % (sr, cr),
+                              "known": "KF-C05-escaped-dollar-quote"})
+            continue
         stats["model_checked"] += 1
         if mr != cr:
             mism.append({"input": describe(c), "code": cr, "model": mr})
@@ -352,7 +384,7 @@ def evaluate(ctx, cases, bash_all=False, bash_sample=1500):
         bres = br.run([cases[i] for i in idxs])
     finally:
         br.close()
-    differ = [i for i, b in zip(idxs, bres) if code[i] != b]
+    differ = [i for i, b in zip(idxs, bres) if code[i] != b and b != ("TIMEOUT",)]
     if differ:
         kn = ctx.model("xpknown", [mfields[i] for i in differ])
         for i, l in zip(differ, kn):
@@ -364,7 +396,7 @@ def evaluate(ctx, cases, bash_all=False, bash_sample=1500):
     for i, b in zip(idxs, bres):
         c = cases[i]
         cr, sr = code[i], X.decode_result(spec[i])
-        if sr[0] == "UNSUPPORTED":
+        if sr[0] == "UNSUPPORTED" or b == ("TIMEOUT",):
             continue
         svb["compared"] += 1
         svb["spec_eq_bash" if sr == b else "spec_ne_bash"] += 1
@@ -524,6 +556,8 @@ def evaluate_brace(ctx, n):
     svb = {"compared": 0, "spec_eq_bash": 0, "spec_ne_bash": 0, "code_eq_bash": 0, "code_ne_bash": 0, "spec_disagreements_with_bash": []}
     for i, il, ml, b in zip(live, impl, model, bres):
         c = cases[i]
+        if b == ("TIMEOUT",):
+            continue
         cr, mr = X.decode_result(il), X.decode_result(ml)
         sr = spec_of.get(i, ("OK", [])) if not getattr(c, "spec_bad", False) else ("UNSUPPORTED",)
         if mr[0] == "BAD":
@@ -618,7 +652,7 @@ def search(ctx, res):
             br.close()
         specv = []
         for c, cr, b in zip(cases, code, bres):
-            if cr != b:
+            if cr != b and b != ("TIMEOUT",):
                 v = {"input": describe(c), "why": "bash gives %r, code gave %r" % (b, cr)}
                 kf = classify(c, cr, b)
                 if kf:
